@@ -53,11 +53,11 @@ def runs(ctx):
     by the case's variant (2 variants); FullValues=True: every option ranges over unset + its whole alphabet."""
     big = {"QUERY", "EXECUTE", "BATCH"}
     if ctx.quick:
-        return [("all kinds: set/unset lattice x 2 variants; frame options full (small kinds) / pairwise (QUERY, EXECUTE, BATCH)",
-                 dict(Families=set(ALL_KINDS), FullValues=False, FullFrame=set(SMALL_KINDS), VarSet={1, 2}, Small=True))]
+        return [("all kinds: set/unset lattice x variants 2 (second alphabet elements) and 3 (zero / empty edge values); frame options full (small kinds) / pairwise (QUERY, EXECUTE, BATCH)",
+                 dict(Families=set(ALL_KINDS), FullValues=False, FullFrame=set(SMALL_KINDS), VarSet={2, 3}, Small=True))]
     return [
-        ("all kinds: set/unset lattice x 2 variants; full frame-option lattice except EXECUTE (pairwise); all value lists / batch shapes",
-         dict(Families=set(ALL_KINDS), FullValues=False, FullFrame=set(ALL_KINDS) - {"EXECUTE"}, VarSet={1, 2}, Small=False)),
+        ("all kinds: set/unset lattice x 3 variants (incl. zero / empty edge values); full frame-option lattice except EXECUTE, BATCH (pairwise); all value lists / batch shapes",
+         dict(Families=set(ALL_KINDS), FullValues=False, FullFrame=set(ALL_KINDS) - {"EXECUTE", "BATCH"}, VarSet={1, 2, 3}, Small=False)),
         ("QUERY, PREPARE, BATCH: every option over unset + its whole alphabet, pairwise frame options",
          dict(Families={"QUERY", "PREPARE", "BATCH"}, FullValues=True, FullFrame=set(), VarSet={2}, Small=False)),
         ("EXECUTE: every option over unset + its whole alphabet, pairwise frame options",
@@ -91,6 +91,7 @@ def run(ctx):
     seen = set()
     probes = []
     skipmeta = {"requested": 0, "flag_sent": 0}
+    emptyps = {"requested": 0, "written": 0}
     for label, consts in runs(ctx):
         cfg = tlc.write_cfg(os.path.join(ctx.scratch, "WireRequests_%d.cfg" % len(ctx.extra.get("tlc_runs", []))),
                             constants=consts, invariants=INVARIANTS, deadlock=False)
@@ -123,6 +124,9 @@ def run(ctx):
             if st["expect"] == "frame" and case["o"].get("skip") and got[0] == "frame":
                 skipmeta["requested"] += 1
                 skipmeta["flag_sent"] += 1 if wb.param_flags(case, got[1], st["layout"]) & 0x02 else 0
+            if st["expect"] == "frame" and case["o"].get("pstate") == [[]] and got[0] == "frame":
+                emptyps["requested"] += 1
+                emptyps["written"] += 1 if wb.param_flags(case, got[1], st["layout"]) & 0x08 else 0
             if nontrivial(st):
                 ctx.nontrivial(key)
             if ctx.evaluations % 4001 == 1:
@@ -139,6 +143,7 @@ def run(ctx):
     ctx.note("cases_per_family", per_family)
     ctx.note("outside_session_lattice_outcomes", open_outcomes)
     ctx.note("skip_metadata_recorded_not_judged", skipmeta)
+    ctx.note("zero_length_paging_state_recorded_not_judged", emptyps)
     ctx.note("rule", "one case = one TLC state (kind, pv, frame options, message options); distinct by the whole case; "
                      "non-trivial = at least one optional field / frame option set, or the expectation is a refusal")
 
